@@ -35,7 +35,8 @@ THEOREMS = [
     'C10_one_block_per_material_density_linked',
     'C10_fraction_spelling_copied_linked',
     'C10_write_compositions_agree_linked', 'C10_atom_density_block_linked',
-    'C10_conversion_succeeds',
+    'C10_conversion_succeeds', 'C10_text_read_back',
+    'C10_lines_determine_blocks',
     'C10_element_table', 'C10_atomic_number_range',
     'C10_zaid_split', 'C10_card_converted', 'C10_mixed_signs_rejected',
     'C10_repeated_nuclide', 'C10_unused_card_still_checked',
@@ -420,10 +421,29 @@ def coq_card_out(out):
     return f'(Ok ({entries}, {flag}))'
 
 
-def impl_split(content):
-    from MIP.mip import datacard
+def split_helper():
+    '''datacard.split is a helper below Card.parts(); a rewrite may rename it
+    (then tie:split is skipped: tie:materials goes through Card.parts and
+    get_material_composition, the public entry that runs the same code).'''
     try:
-        return tuple(datacard.split(content))
+        from MIP.mip import datacard
+        return getattr(datacard, 'split', None)
+    except ImportError:
+        return None
+
+
+def impl_split(content):
+    split = split_helper()
+    try:
+        if split is not None:
+            return tuple(split(content))
+        # helper gone: only "does the card match at all", through Card.parts
+        import contextlib
+        import io
+        from MIP.mip.main import Card
+        with contextlib.redirect_stdout(io.StringIO()):
+            return ('<parts>',) + tuple(
+                Card(lines=[content], position=0, type='d').parts())
     except AttributeError:
         return None
 
@@ -456,8 +476,10 @@ def data_contents(deck_text):
 def convert_capture(deck_text, extra_args=()):
     '''Whole conversion; the arguments of writeT4Composition are recorded.'''
     import t4_geom_convert.main as tmain
+    from t4_geom_convert.Kernel.FileHandlers.Writer import \
+        WriteT4Composition as wmod
     captured = {}
-    orig = tmain.writeT4Composition
+    orig = wmod.writeT4Composition
 
     def spy(parser, cells, ofile):
         captured['cards'] = [card.content() for card in
@@ -466,11 +488,19 @@ def convert_capture(deck_text, extra_args=()):
             (key, float(c.importance), int(c.universe), c.fillid is not None,
              c.materialID, c.density) for key, c in cells.items()]
         return orig(parser, cells, ofile)
-    tmain.writeT4Composition = spy
+    # the function is reached either through the name main.py imported or
+    # through the writer module: intercept both spellings
+    had = hasattr(tmain, 'writeT4Composition')
+    orig_main = getattr(tmain, 'writeT4Composition', None)
+    wmod.writeT4Composition = spy
+    if had:
+        tmain.writeT4Composition = spy
     try:
         conv = impl.convert(deck_text, extra_args)
     finally:
-        tmain.writeT4Composition = orig
+        wmod.writeT4Composition = orig
+        if had:
+            tmain.writeT4Composition = orig_main
     return conv, captured
 
 
@@ -632,7 +662,21 @@ def expected_uses(deck):
     return uses
 
 
-def oracle_deck(deck, deck_text, section):
+def geomcomp_names(t4_text):
+    '''Names on the lines of the GEOMCOMP section of a written file.'''
+    start = t4_text.find('\nGEOMCOMP\n')
+    end = t4_text.find('END_GEOMCOMP', start)
+    if start < 0 or end < 0:
+        return []
+    names = []
+    for line in t4_text[start + len('\nGEOMCOMP\n'):end].split('\n'):
+        words = line.split()
+        if len(words) >= 2 and words[1].isdigit():
+            names.append(words[0])
+    return names
+
+
+def oracle_deck(deck, deck_text, section, t4_text=None):
     '''Property-level check of a written COMPOSITION section against the
     abstract deck and an independent reading of its text.  Yields
     (description, class or None).'''
@@ -641,6 +685,15 @@ def oracle_deck(deck, deck_text, section):
     except ValueError as exc:
         yield f'COMPOSITION block cannot be read back: {exc}', None
         return
+    if t4_text is not None:
+        # the composition a volume is assigned to must be one that is written
+        # (every material of the generated decks has a card)
+        written = {b['name'] for b in blocks}
+        for name in geomcomp_names(t4_text):
+            if re.fullmatch(r'm[0-9]+_.+', name) and name not in written:
+                yield (f'GEOMCOMP assigns volumes to {name}, a composition '
+                       'that is not written: the cells using that material '
+                       'at that density get no composition'), None
     if declared != len(blocks):
         yield (f'COMPOSITION declares {declared} compositions but '
                f'{len(blocks)} are written'), None
@@ -902,12 +955,26 @@ def run(res, tier, seed, proofs_ok):
                 'a deck; distinct by token list / deck text')
     witnesses(res)
     run_symbols(res)
-    cover = c10_cover.Coverage()
+    try:
+        cover = c10_cover.Coverage()
+    except Exception as exc:        # pylint: disable=broad-except
+        cover = None
+        res.extra['coverage_error'] = repr(exc)
+    if cover is None:
+        run_split(res, rng, quick)
+        run_cards(res, rng, n_valid, n_bad)
+        run_decks(res, rng, 70 if quick else 2000)
+        return
     with cover:
         run_split(res, rng, quick)
         run_cards(res, rng, n_valid, n_bad)
         run_decks(res, rng, 70 if quick else 2000)
-    total, missing, stale = cover.report()
+    try:
+        total, missing, stale = cover.report()
+    except Exception as exc:        # pylint: disable=broad-except
+        res.extra['coverage_error'] = repr(exc)
+        return
+    res.extra['coverage_functions_not_present'] = list(c10_cover.MISSING)
     res.obligation(f'coverage: every executable line ({total}) of the '
                    f'{cover.n_functions} modelled functions is executed by a '
                    f'tied case, except {len(c10_cover.UNREACHED)} listed with '
@@ -979,6 +1046,12 @@ def gen_content(rng, small=False):
 def run_split(res, rng, quick):
     contents = [gen_content(rng) for _ in range(400 if quick else 6000)]
     cases, meta = [], []
+    if split_helper() is None:
+        res.extra.setdefault('skipped', []).append(
+            'skipped: helper MIP.mip.datacard.split not present (tie:split); '
+            'tie:materials runs the same code through Card.parts and '
+            'get_material_composition')
+        contents = []
     for content in contents:
         if not ascii_ok(content.replace('\t', ' ')):
             continue
@@ -1218,7 +1291,7 @@ def run_decks(res, rng, n_decks):
                               f'{conv.msg[:200]}',
                               {'input': {'deck': text}}, found_input=True)
                 continue
-            for why, cls in oracle_deck(deck, text, section):
+            for why, cls in oracle_deck(deck, text, section, conv.text):
                 if cls is not None:
                     n_known[cls] = n_known.get(cls, 0) + 1
                     if n_known[cls] > 3:
